@@ -1,10 +1,11 @@
 PROPERTY = "C18"
 LEVEL = "proof"
-LEAN_MODULES = ["CifModel.Props.C18", "CifModel.Props.C18Text", "CifModel.Props.ReviewC18"]
+LEAN_MODULES = ["CifModel.Props.C18", "CifModel.Props.C18Text", "CifModel.Props.C18Parse", "CifModel.Props.ReviewC18"]
 REQUIRED = ["CifModel.C18_stats_exact", "CifModel.C18_maxRun_spec", "CifModel.C18_delim_permitted", "CifModel.C18_delim_admissible",
             "CifModel.C18_prefers_simple", "CifModel.C18_reserved_iff", "CifModel.C18_set_unquoted_iff", "CifModel.C18_try_quoted",
-            "CifModel.C18_delim_lexically_admissible", "CifModel.C18_delim_reads_back", "CifModel.C18_delim_reads_back_text"]
-GEN = ["ErrCodes"]
+            "CifModel.C18_delim_lexically_admissible", "CifModel.C18_delim_reads_back", "CifModel.C18_delim_reads_back_text",
+            "CifModel.C18_set_quoted_all_kinds", "CifModel.C18_fits_limit", "CifModel.C18_delim_reads_back_value"]
+GEN = ["ErrCodes", "NamesConsts"]
 FAMILIES = ["analyze", "reserved", "setq"]
 TRUSTED_BASE = [
     "Lean 4.33.0 kernel; axioms propext, Classical.choice, Quot.sound only",
@@ -16,13 +17,26 @@ TRUSTED_BASE = [
 ]
 ASSUMPTIONS = [
     "strings are NUL-free (0 ∉ s) where the C reads the terminator; length_limit >= 0",
-    "read-back is stated for strings of CIF 2.0 characters; a string containing CR can only come back EOL-normalised (C08)",
+    "read-back (C18_delim_reads_back, _text, _value, C18_fits_limit) is stated for strings of CIF 2.0 characters (`okUnits .cif2`): in "
+    "particular strings containing CR are EXCLUDED from every read-back theorem - the parser normalises CR / CR LF to LF before "
+    "tokenising (C08), so such a string cannot be read back identically by any presentation; the statistics theorem "
+    "(C18_stats_exact) and the delimiter theorems do cover CR.  For CR-containing strings the read-back modulo EOL normalisation is "
+    "checked by the `analyze` oracle only",
+    "length_limit <= CIF_LINE_LENGTH for the read-back `within the length limit` (C18_fits_limit); the only caller passes the line length",
     "has_trailing_ws also counts VT (U+000B), which is not a CIF character; C18_stats_exact states both the VT form and the SP/TAB form "
     "(the latter for VT-free strings)",
 ]
 PARTIAL = [
     "C18_delim_reads_back_text covers the PLAIN text field (contains_text_delim = 0, has_reserved_start = 0, lines within the limit); "
     "text-field recommendations that need the fold / prefix protocol are read back by C02_text_protocol (writer group), not here",
+    "read-back is proved at token level (C18_delim_reads_back: scanner model of C01) and at the level of the value parse_value builds "
+    "(C18_delim_reads_back_value: `.chr (delimiter used) s`, parser model of gJ); the parser never creates number-kind values - a "
+    "whitespace-delimited digit string comes back as an unquoted character value that the library interprets as a number on demand; "
+    "that interpretation (cif_value_get_number) is property C10's, not read back here",
+    "C18_set_unquoted_iff examines the text only for a QUOTED character value asked to become unquoted; every other kind / flag "
+    "combination is C18_set_quoted_all_kinds (an already unquoted character value keeps any text - such values are made by the parser only)",
+    "embedding of the presentation into a whole document (data name in front, following items) is the probe document of the `analyze` "
+    "executor (real cif_parse), not a theorem here; at model level it is C01_parse_render / C02_roundtrip_doc",
 ]
 LEVEL_TEXT = ("Proof: for every string, flag pair and limit the model's statistics equal those of the line decomposition "
               "(C18_stats_exact, by loop invariants), the recommended delimiter is permitted (C18_delim_permitted), admissible and "
@@ -31,6 +45,6 @@ LEVEL_TEXT = ("Proof: for every string, flag pair and limit the model's statisti
               "(C18_set_unquoted_iff) and cif_is_reserved_string = reserved form (C18_reserved_iff). Model tied to the code by "
               "exhaustive differential execution; read-back through the real parser checked on every case.")
 LEVEL_NOTE = ("Trusted: Lean kernel; hand-written model + correspondence; Spec/Analyze.lean as the meaning of the CIF rules. "
-              "Read-back (C18_delim_reads_back) is proved over the scanner model of C01 (C01_lex_value_after_ws) and, for plain text fields, "
+              "Read-back (C18_delim_reads_back, _value) is proved over the scanner model of C01 (C01_lex_value_after_ws), lifted to parse_value of the parser model, tied to the limit argument by C18_fits_limit (CIF_LINE_LENGTH regenerated) and, for plain text fields, "
               "over the decode_text model of C02; it is additionally observed through the real cif_parse on every case.")
 TECHNIQUE = "Lean 4 proof (loop invariants, case analysis) about an executable model + exhaustive differential execution incl. read-back through the real parser"
